@@ -160,6 +160,7 @@ def fLabel := strBytes "label"
 def fCaps := strBytes "caps"
 def fFailReq := strBytes "failReq"
 def fFailRes := strBytes "failRes"
+def fPort := strBytes "port"
 
 def tokOf (s : Bytes) : Tok :=
   if s == strBytes "request" then .request else if s == strBytes "response" then .response else .other
@@ -281,6 +282,25 @@ def probeNode (body : DV) : Node :=
   | none => .malformed
   | some s => if s.label < 0 then .malformed else .leaf s.label.toNat (capsOfStr s.caps) s.fq s.fs (scopeOfSl s.scope)
 
+/-- `port.filterFromJSON`: `port`, `modifier`, `scope`; there is no `else` (an `"else"` member is unknown). -/
+structure PortSt where
+  port : Int := 0
+  mod : Option DV := none
+  scope : Sl Bytes := Sl.nil
+
+def portFields : List Bytes := [fModifier, fScope, fPort]
+
+def portSet (s : PortSt) (f : Nat) (v : DV) : Option PortSt :=
+  match f with
+  | 0 => some { s with mod := some v }
+  | 1 => (decScope s.scope v).map fun x => { s with scope := x }
+  | _ => (decInt s.port v).map fun x => { s with port := x }
+
+def portNode (body : DV) : Node :=
+  match decStruct portFields portSet {} body with
+  | none => .malformed
+  | some s => .filter (.port s.port) (scopeOfSl s.scope) (rawNode s.mod) none
+
 /-- The registry (`parseFuncs`) restricted to the modelled names; any other name is unknown
 (registered names outside the model are excluded by the driver). -/
 def bodyNode (name : Bytes) (body : DV) : Node :=
@@ -292,6 +312,7 @@ def bodyNode (name : Bytes) (body : DV) : Node :=
   else if name == strBytes "method.Filter" then filterNode [fMethod] (fun s => .method s.a) body
   else if name == strBytes "cookie.Filter" then filterNode [fName, fValue] (fun s => .cookie s.a s.b) body
   else if name == strBytes "verif.Probe" then probeNode body
+  else if name == strBytes "port.Filter" then portNode body
   else .unknown
 
 /-- The value a `map[string]json.RawMessage` holds for `name` after decoding the members in order. -/
@@ -356,6 +377,11 @@ def renderCond : Cond → Bytes × List (Bytes × JVal)
   | .query n v => (strBytes "querystring.Filter", [(fName, .str n), (fValue, .str v)])
   | .header n v => (strBytes "header.Filter", [(fName, .str n), (fValue, .str v)])
   | .cookie n v => (strBytes "cookie.Filter", [(fName, .str n), (fValue, .str v)])
+  | .port p => (strBytes "port.Filter", [(fPort, renderInt p)])
+
+def Cond.isPort : Cond → Bool
+  | .port _ => true
+  | _ => false
 
 mutual
 def render : Node → JVal
@@ -380,7 +406,8 @@ def renderElse : Option Node → List (Bytes × JVal)
   | some e => [(fElse, render e)]
 end
 
-/-! ### trees whose numbers a JSON text can carry into Go's `int64` -/
+/-! ### trees whose numbers a JSON text can carry into Go's `int64` (port filters, which have no
+`else` member, are left out of the round trip; their decoding is `portNode`) -/
 
 mutual
 def fits : Node → Bool
@@ -389,7 +416,7 @@ def fits : Node → Bool
   | .malformed => true
   | .fifo _ _ cs => fitsList cs
   | .prio _ cs => fitsPList cs
-  | .filter _ _ t e => fits t && fitsOpt e
+  | .filter c _ t e => !c.isPort && fits t && fitsOpt e
 def fitsList : List Node → Bool
   | [] => true
   | c :: cs => fits c && fitsList cs
